@@ -97,6 +97,25 @@ def rules(ck, P):
             okc = ir.place_str(a0) == "result.blob" and ir.place_str(a1) == "result.compression" and ir.place_str(a2) == "target_compressions"
         ck.check(okc, "R-CE-TABLE", b["q"] + "|inputs", "optimize_compression(result.blob, result.compression, target_compressions)",
                  "optimize_compression is not called with the response's own blob/compression and the negotiated target", ir.loc(b))
+        # the body and the Content-Encoding tag are, on every path, the pair returned by that call
+        okp = False
+        whyp = "no `let (blob, compression) = optimize_compression(..)`"
+        if len(oc) == 1:
+            for n in ir.walk_nodes(b["body"]):
+                if n.get("k") == "let" and "init" in n and ir.contains(n["init"], lambda y: y is oc[0]):
+                    e = ir.strip(n["init"])
+                    while e is not None and e is not oc[0] and (e.get("k") in ("try", "await") or (e.get("k") == "mcall" and e.get("name") in ("expect", "unwrap") )):
+                        e = ir.strip(e["e"] if e.get("k") in ("try", "await") else e["recv"])
+                    binds = ir.pat_binds(n["pat"])
+                    direct = e is oc[0]
+                    mt = [m for m in ir.walk_nodes(b["body"]) if m.get("k") == "match" and any(comp.ENC_OF.get(absint.vname(a["pat"].get("q") or a["pat"].get("e", {}).get("q") or "")) for a in m["arms"])]
+                    bodyc = [x for x in ir.walk_nodes(b["body"]) if x.get("k") == "mcall" and x.get("name") == "body"]
+                    tag_ok = len(binds) == 2 and len(mt) == 1 and ir.local_hid(mt[0]["e"]) == binds[1]["hid"]
+                    body_ok = len(binds) == 2 and len(bodyc) == 1 and binds[0]["hid"] in {ir.local_hid(y) for y in ir.walk_nodes(bodyc[0]["a"][0])}
+                    okp = direct and tag_ok and body_ok
+                    whyp = "direct=%s tag-from-result=%s body-from-result=%s" % (direct, tag_ok, body_ok)
+        ck.check(okp, "R-CE-TABLE", b["q"] + "|result-used", "on every path the response body and the Content-Encoding tag are the pair returned by optimize_compression",
+                 "some path builds the response without optimize_compression's result (%s): the stored encoding can be sent to a client that did not list it" % whyp, ir.loc(b))
         ct = [x for x in ir.walk_nodes(b["body"]) if x.get("k") == "mcall" and x.get("name") == "header" and ir.place_str(x["a"][0]).endswith("CONTENT_TYPE")]
         ck.check(len(ct) == 1 and ir.place_str(ct[0]["a"][1]) == "result.mime", "R-CE-TABLE", b["q"] + "|content-type", "Content-Type is the response's mime", "Content-Type is not result.mime", ir.loc(b))
         st = [ir.const_eval(x["a"][0], {}) for x in ir.walk_nodes(b["body"]) if x.get("k") == "mcall" and x.get("name") == "status"]
